@@ -18,5 +18,8 @@ Next == FALSE /\ UNCHANGED vars
 Spec == Init /\ [][Next]_vars
 PassesEqualTransducer == (kind = "text") => FivePasses(s) = esc
 UnescEscIsIdentity == (kind = "text") => JudgeEscape(s, esc) = "ok"
+\* the microsecond statement restricted to whole milliseconds is the millisecond statement
+UsAgreesWithMs == (kind = "dur") => \A R \in RoundedSet(dur[1], dur[2]) :
+   LET p == FormatImpl(dur[1], dur[2], R) IN JudgeDurationUs(dur[1], dur[2] * 1000, p) = JudgeDuration(dur[1], dur[2], p)
 FormatRefines == (kind = "dur") => \A R \in RoundedSet(dur[1], dur[2]) : JudgeDuration(dur[1], dur[2], FormatImpl(dur[1], dur[2], R)) = "ok"
 =============================================================================
